@@ -24,6 +24,8 @@ func init() {
 	vHarnesses["vH_C05_livempd_time_subs_patch"] = vH_C05_livempd_time_subs_patch
 	vHarnesses["vH_C05_livempd_nr_subs_patch"] = vH_C05_livempd_nr_subs_patch
 	vHarnesses["vH_C05_livempd_number_subs"] = vH_C05_livempd_number_subs
+	vHarnesses["vH_C05_livempd_number_subs_wave"] = vH_C05_livempd_number_subs_wave
+	vHarnesses["vH_C05_livempd_time_subs_wave"] = vH_C05_livempd_time_subs_wave
 	vHarnesses["vH_C05_livempd_time_lowlatency"] = vH_C05_livempd_time_lowlatency
 	vHarnesses["vH_C05_livempd_number_lowlatency"] = vH_C05_livempd_number_lowlatency
 	vHarnesses["vH_C05_livempd_time_lowlatency_any"] = vH_C05_livempd_time_lowlatency_any
@@ -46,6 +48,14 @@ func vH_C05_livempd_nr_subs_patch() {
 	vLiveMPD(vAsset_testpic_2s(), "Manifest.mpd", 2, 5, vOptSubs|vOptPatch)
 }
 func vH_C05_livempd_number_subs() { vLiveMPD(vAsset_testpic_2s(), "Manifest.mpd", 0, 5, vOptSubs) }
+
+// the 29.97 fps asset: 2002 ms segments (60060/30000), so that millisecond conversions of the subtitle sets matter
+func vH_C05_livempd_number_subs_wave() {
+	vLiveMPD(vAsset_WAVE_vectors_cfhd_sets_14_985_29_97_59_94_t1_2022_10_17(), "stream.mpd", 0, 5, vOptSubs)
+}
+func vH_C05_livempd_time_subs_wave() {
+	vLiveMPD(vAsset_WAVE_vectors_cfhd_sets_14_985_29_97_59_94_t1_2022_10_17(), "stream.mpd", 1, 5, vOptSubs)
+}
 
 // low-latency: fractional availabilityTimeOffset, chunked (availabilityTimeComplete=false)
 func vH_C05_livempd_time_lowlatency() {
@@ -253,8 +263,9 @@ func vLiveMPD(a *asset, mpdName string, mode, maxTsbd, opt int) {
 				if st.Timescale != nil {
 					ts = int(*st.Timescale)
 				}
-				// constant-duration assets: @duration/@timescale is the segment duration
-				vAssert("C05.livempd.number.duration", int(*st.Duration)*1000 == a.SegmentDurMS*ts)
+				// constant-duration assets: @duration/@timescale is the duration of a reference (video) segment
+				ref := a.refRep
+				vAssert("C05.livempd.number.duration", int(*st.Duration)*ref.MediaTimescale*len(ref.Segments) == ref.duration()*ts)
 			}
 			continue
 		}
